@@ -134,11 +134,11 @@ TraceInit ==
 
 \* The answers recorded after step l-1 are judged in the state that step produced, i.e. at the beginning of
 \* the next action (evaluating them unprimed lets TLC cache the context).
-JudgePrev == IF l > 1 THEN Judge(Steps[l - 1].obs) ELSE <<"ok", 0>>
+JudgePrev == IF l > 1 /\ (driftAt = 0 \/ l = Len(Steps) + 1) THEN Judge(Steps[IF driftAt # 0 THEN driftAt ELSE l - 1].obs) ELSE <<"ok", 0>>
 Account ==
     LET j == JudgePrev IN
     /\ verdict' = IF verdict = "ok" THEN j[1] ELSE verdict
-    /\ failAt' = IF verdict = "ok" /\ j[1] # "ok" THEN l - 1 ELSE failAt
+    /\ failAt' = IF verdict = "ok" /\ j[1] # "ok" THEN (IF driftAt # 0 THEN driftAt ELSE l - 1) ELSE failAt
     /\ asis' = asis + j[2]
 
 \* Either the step is a step of Accel with that label leading to the projected state, or the model is left
@@ -146,9 +146,10 @@ Account ==
 \* verdict of the branch that conformed longest.
 Consume ==
     /\ l <= Len(Steps)
-    /\ \/ ~(Traces[tid].free /\ l = 1) /\ driftAt = 0 /\ StrictNow /\ driftAt' = driftAt
-       \/ AdoptNow /\ driftAt' = IF driftAt = 0 /\ ~(Traces[tid].free /\ l = 1) THEN l ELSE driftAt
-    /\ l' = l + 1
+    /\ \/ ~(Traces[tid].free /\ l = 1) /\ StrictNow /\ driftAt' = driftAt /\ l' = l + 1
+       \/ Traces[tid].free /\ l = 1 /\ AdoptNow /\ driftAt' = driftAt /\ l' = l + 1
+       \* leaving the model ends the history: the state is adopted, its answers judged, nothing after it
+       \/ ~(Traces[tid].free /\ l = 1) /\ AdoptNow /\ driftAt' = l /\ l' = Len(Steps) + 1
     /\ Account
     /\ UNCHANGED tid
 
